@@ -10,13 +10,15 @@ Notation queue := (list (Z * str)%type) (only parsing).
 
 Inductive qop :=
 | QPush (s : str) | QPop | QPopN (k : Z) | QPeek | QPeekN (k : Z) | QEmpty
-| QDropLast.   (* UnAckQueue.DropLast: Client.writeHeld calls it when the write of the packet just pushed is refused *)
+| QDropLast    (* UnAckQueue.DropLast: Client.writeHeld calls it when the write of the packet just pushed is refused *)
+| QPushForeign.   (* Push of a Queueable that is not an *UnAckedStz: refused (an error), the queue object is as it was *)
 
 Inductive qout :=
 | QNil                      (* nil / no value *)
 | QOne (e : entry)
 | QMany (l : list entry)
-| QBool (b : bool).
+| QBool (b : bool)
+| QRefused.                 (* an error *)
 
 Definition last_id (q : queue) : option Z :=
   match rev q with [] => None | (i, _) :: _ => Some i end.
@@ -72,6 +74,7 @@ Definition q_step (st : qstate) (o : qop) : qstate * qout :=
   | QPeekN k => (st, many (q_peekn q k))
   | QEmpty => (st, QBool (match q with [] => true | _ => false end))
   | QDropLast => (q_droplast st, QNil)
+  | QPushForeign => (st, QRefused)
   end.
 
 Definition q_init : qstate := ([], 0).
@@ -89,7 +92,7 @@ Definition q_exec (st : qstate) (ops : list qop) : qstate :=
 
 (* ---- reference FIFO: a plain list of payloads ---- *)
 Definition fifo := list str.
-Inductive fout := FNil | FOne (s : str) | FMany (l : list str) | FBool (b : bool).
+Inductive fout := FNil | FOne (s : str) | FMany (l : list str) | FBool (b : bool) | FRefused.
 
 Definition f_take (f : fifo) (k : Z) : list str :=
   if k <=? 0 then [] else firstn (Z.to_nat (Z.min k (Z.of_nat (length f)))) f.
@@ -105,6 +108,7 @@ Definition f_step (f : fifo) (o : qop) : fifo * fout :=
   | QPeekN k => (f, fmany (f_take f k))
   | QEmpty => (f, FBool (match f with [] => true | _ => false end))
   | QDropLast => (removelast f, FNil)   (* the newest entry is taken back *)
+  | QPushForeign => (f, FRefused)       (* not an element of this FIFO *)
   end.
 
 Definition q_abs (q : queue) : fifo := map snd q.
@@ -112,6 +116,7 @@ Definition out_abs (o : qout) : fout :=
   match o with
   | QNil => FNil | QOne e => FOne (snd e)
   | QMany l => FMany (map snd l) | QBool b => FBool b
+  | QRefused => FRefused
   end.
 
 (* ---- reference for the numbering: the log of the payloads pushed and not taken back, oldest first, and
@@ -126,7 +131,7 @@ Definition l_step (s : nlog) (o : qop) : nlog :=
   | QPop => (lg, if (p <? length lg)%nat then S p else p)
   | QPopN k => (lg, (p + length (f_take (skipn p lg) k))%nat)
   | QDropLast => if (p <? length lg)%nat then (removelast lg, p) else (lg, p)
-  | QPeek | QPeekN _ | QEmpty => (lg, p)
+  | QPeek | QPeekN _ | QEmpty | QPushForeign => (lg, p)
   end.
 Definition l_exec (s : nlog) (ops : list qop) : nlog := fold_left l_step ops s.
 
